@@ -412,7 +412,13 @@ func runC07(c *core.Ctx) {
 					posO = ci.Pos()
 				}
 			}
-			c.Check(nd > 0 && badO == "", key+"#interests-in-stated-order", p.Pos(posO), "stated interests are explored one by one in the order stated", badO+": children are visited in the node's order instead of the order the selector states, and an interest stated twice is explored once")
+			if nd == 0 {
+				// the walk does not have a separate loop for stated interests in this shape (children come out of one
+				// cursor whatever the selector states): the order is not decided here
+				c.Info(key+"#interests-in-stated-order", p.Pos(posO), "no descent that runs only when interests are stated: order of exploration not decided in this shape")
+			} else {
+				c.Check(badO == "", key+"#interests-in-stated-order", p.Pos(posO), "stated interests are explored one by one in the order stated", badO+": children are visited in the node's order instead of the order the selector states, and an interest stated twice is explored once")
+			}
 		}
 
 		// (c) what the callback is told
